@@ -226,16 +226,73 @@ def run(ctx, ck) -> None:
             ck.expect('I5', ok, am.node, f'{cls.name}.as_matrix: {why}', f'{cls.name}.as_matrix is not the general matrix inverse of the operand matrix: {why} '
                       '(the lazy orthogonal inverses inherit it, and their operands are neither symmetric nor positive definite)', instance=f'{cls.name} dense inverse')
 
+    # ------------------------------------------------------------------ I7 the coefficient of a closed-form-invertible operator is applied uncast
+    # (A.I(A(x)) = x with the closed forms 1/s and 1/d only if mv multiplies by the stored coefficient itself: a coefficient
+    # cast to the data type of the operand truncates 1/s to 0 on integer operands and drops the imaginary part on real ones)
+    from .c04 import _self_closure as _closure
+
+    n_i7 = 0
+    for qual in (f'{CORE}.HomothetyOperator', 'furax._base.diagonal.BroadcastDiagonalOperator', 'furax._base.diagonal.DiagonalOperator', 'furax._base.diagonal.DiagonalInverseOperator'):
+        cls = table.find(qual)
+        mvr = table.resolve(cls, 'mv') if cls is not None else None
+        if mvr is None or not isinstance(mvr.node, ast.FunctionDef):
+            raise AnalysisError(f'anchor vanished: {qual}.mv')
+        fns = [mvr.node] + list(_closure(table, cls, mvr.node).values())
+        casts = []
+        for f in fns:
+            casts.extend(_coefficient_casts(f, {fi.name for fi in table.fields(cls) if not fi.static}))
+        n_i7 += 1
+        ck.expect('I7', not casts, mvr.node, f'{cls.name}.mv applies its stored coefficient without converting it to the data type of the operand',
+                  f'{cls.name}.mv converts its coefficient to the data type of the operand before multiplying ({casts[0] if casts else ""}): on integer operands the closed-form '
+                  'inverse ratio 1/s becomes 0 (A.I(A(x)) = 0), on real operands a complex coefficient loses its imaginary part', instance=f'{cls.name} uncast coefficient')
+    ck.floor('I7', n_i7, 4, 'coefficient-carrying operators with a closed-form inverse')
+
     # ------------------------------------------------------------------ I6 the solve uses the configuration captured at construction
     from . import c19
 
     sub = type(ck)(ck.pid)
     c19.run(ctx, sub)
     for o in sub.obs:
-        if o.rule.endswith(('K4', 'K6', 'K7')):
+        if o.rule.endswith(('K2', 'K3', 'K4', 'K6', 'K7')):
             o.rule = f'{ck.pid}.I6'
             ck.obs.append(o)
     ck.floor('I6', sum(1 for o in ck.obs if o.rule.endswith('I6')), 6, 'capture/use obligations of the solver configuration')
+
+
+def _coefficient_casts(fn: ast.FunctionDef, fields: set[str]) -> list[str]:
+    """Conversions of an expression built from the operator's own dynamic fields (or accessors) to the dtype of something else."""
+    if not fn.args.args:
+        return []
+    me = fn.args.args[0].arg
+
+    def own(e: ast.AST) -> bool:
+        return any(isinstance(n, ast.Attribute) and isinstance(n.value, ast.Name) and n.value.id == me and (n.attr in fields or n.attr.lstrip('_') in {f.lstrip('_') for f in fields}) for n in ast.walk(e))
+
+    def foreign_dtype(e: ast.AST) -> bool:
+        # <something that is not self>.dtype, possibly wrapped
+        for n in ast.walk(e):
+            if isinstance(n, ast.Attribute) and n.attr == 'dtype':
+                root = n.value
+                while isinstance(root, (ast.Attribute, ast.Subscript, ast.Call)):
+                    root = root.value if not isinstance(root, ast.Call) else root.func
+                if isinstance(root, ast.Name) and root.id != me:
+                    return True
+        return False
+
+    out = []
+    for n in ast.walk(fn):
+        if not isinstance(n, ast.Call):
+            continue
+        f = n.func
+        if isinstance(f, ast.Attribute) and f.attr == 'astype' and own(f.value) and n.args and foreign_dtype(n.args[0]) and not own(n.args[0]):
+            out.append(ast.unparse(n))
+        elif isinstance(f, ast.Attribute) and f.attr in ('asarray', 'array', 'convert_element_type', 'full_like') and n.args and own(n.args[0]):
+            dt = next((k.value for k in n.keywords if k.arg in ('dtype', 'new_dtype')), n.args[1] if len(n.args) > 1 else None)
+            if dt is not None and foreign_dtype(dt) and not own(dt):
+                out.append(ast.unparse(n))
+        elif isinstance(f, ast.Name) and f.id in ('int', 'float') and n.args and own(n.args[0]):
+            out.append(ast.unparse(n))
+    return out
 
 
 # ---------------------------------------------------------------------- closed-form schemas
@@ -333,5 +390,6 @@ def controls(world: World) -> list[Control]:
         Control('block-not-inverted', lambda w: edit_def(w, 'furax._base.blocks', 'BlockDiagonalOperator.inverse', lambda fn: replace_expr(fn, 'op.I', 'op')), 'C06.I1'),
         Control('pseudo-inverse-one', lambda w: edit_def(w, DIAG, 'DiagonalInverseOperator.diagonal', lambda fn: replace_expr(fn, 'jnp.where(self._diagonal != 0, 1 / self._diagonal, 0)', 'jnp.where(self._diagonal != 0, 1 / self._diagonal, 1)')), 'C06.I2'),
         Control('square-guard-dropped', lambda w: edit_def(w, CORE, 'InverseOperator.__init__', lambda fn: remove_stmt(fn, 'if operator.in_structure() != operator.out_structure():', prefix=True)), 'C06.I4'),
+        Control('ratio-cast-to-operand-dtype', lambda w: edit_def(w, CORE, 'HomothetyOperator.mv', lambda fn: replace_expr(fn, 'self.value * leaf', 'self.value.astype(leaf.dtype) * leaf')), 'C06.I7'),
         Control('solve-with-self', lambda w: edit_def(w, CORE, 'InverseOperator.mv', lambda fn: replace_expr(fn, 'lx.TaggedLinearOperator(self.operator, lx.positive_semidefinite_tag)', 'lx.TaggedLinearOperator(self, lx.positive_semidefinite_tag)')), 'C06.I5'),
     ]
